@@ -19,7 +19,7 @@ import itertools
 import json
 import re
 
-from mc.core import Check, h
+from mc.core import Check
 from mc import httph
 from mc.vloop import World
 
@@ -307,6 +307,8 @@ def reverse_case(st, case):
         tree = [leaf, catchall]
     elif embed == "nested":
         tree = [["p", "/.*", "N", [leaf]], catchall]
+    elif embed == "nested2":     # an earlier nested router that does not know the name
+        tree = [["p", "/x/.*", "M", [["p", "/x/y", "Y", None]]], ["p", "/.*", "N", [leaf]], catchall]
     elif embed == "hostblock":
         tree = [catchall]
         host_blocks = [(".*", [leaf])]
@@ -342,7 +344,7 @@ def reverse_case(st, case):
                         % (args, pat, type(exc).__name__, exc)))
             return bad, "verdict", url, exc, None
         if not isinstance(url, str) or not re.fullmatch(r"/[\x21-\x7e]*", url):
-            bad.append(("reverse:not-a-request-target:args=" + acls,
+            bad.append(("reverse:not-a-request-target:args=" + acls.split("+")[0],
                         "reverse_url(*%r) for %r returned %r" % (args, pat, url)))
             return bad, "verdict", url, exc, None
         cl = Client(w, router)
@@ -430,11 +432,11 @@ class C31(Check):
             "atoms (re.escape literals incl. '.', '%', '$'; (.*), ([^/]+), named, two groups, "
             "optional group, anchored, nested routers incl. fall-through, host rules) installed in a "
             "real Application AND a real RuleRouter x all paths of <= 2 segments over 14 segments "
-            "(literals' alphabet, %41, %2F, bare %, $, +, UTF-8 escape, empty) [thorough adds single rules "
+            "(literals' alphabet, %41, %2F, bare %, $, +, UTF-8 escape, empty) [thorough adds lists <= 2 "
             "x paths <= 3 segments]; space H: Application with 0-2 add_handlers host blocks x "
             "4 host patterns x 4 rule blocks x 3 constructor lists x default_host {None,a,b.a} x "
             "X-Real-Ip x 4 Host values x 3 paths; space R: 15 named patterns x all argument tuples "
-            "from 11 values x 4 embeddings x {Application, ReversibleRuleRouter}; every request goes "
+            "from 11 values x 5 embeddings (top, nested, nested after an unrelated nested router, add_handlers block, HostMatches rule) x {Application, ReversibleRuleRouter}; every request goes "
             "through a real HTTPServer; non-trivial = distinct (rule list, path) with >= 2 matching "
             "rules or a percent-escape in a captured group or a fall-through, and reverse cases with "
             "a verdict")
@@ -461,7 +463,7 @@ class C31(Check):
         n = 2 if tier == "quick" else 3
         parts = [("P", i, 48, n, 2) for i in range(48)]
         if tier != "quick":
-            parts += [("P", i, 18, 1, 3) for i in range(18)]
+            parts += [("P", i, 48, 2, 3) for i in range(48)]
         parts += [("H", i, 32) for i in range(32)]
         parts += [("R", i, 16) for i in range(16)]
         return parts
@@ -564,7 +566,7 @@ class C31(Check):
             pat = ATOMS[name][0]
             ng = re.compile(pat).groups
             for args in itertools.product(REV_ARGS, repeat=ng):
-                for embed in ("top", "nested", "hostblock", "hostrule"):
+                for embed in ("top", "nested", "nested2", "hostblock", "hostrule"):
                     for variant in ("app", "router"):
                         if variant == "router" and embed == "hostblock":
                             continue
